@@ -11,6 +11,48 @@ def prop(pid, manifest=None, **kw):
     MANIFEST_TEXT[pid] = manifest
 
 
+prop('C14',
+     level='exploration',
+     rule=('generated: expression trees of depth 1..6 over From, FromSlice (0..6 elements), nil, TakeWhile, DropWhile, Filter, Map, Plus, Join; '
+           'predicates/mappings from parameterised families (residue classes, thresholds, const true/false, affine maps); Join bodies are generated '
+           'sub-trees evaluated with a shift derived from the outer element and return nil on a drawn residue class; oracle: a list interpreter '
+           '(evalS) compared with the slice collected by the documented loop, and with seq.ForEach under a callback failing at a drawn position '
+           '(visited prefix and returned error); source slices compared with private copies afterwards; '
+           'non-trivial = depth >= 3, expected length >= 1, >= 2 different combinators; distinct = different canonical tree+fail position'),
+     assumptions=['element type int only; user functions are pure and total', 'an empty result may be a nil Seq or an iterator-less loop: compared by the collected slice'],
+     parts=[
+         dict(name='enum', engine='E5', pkg='iters', test='TestC14Enum', kind='plain', quick=dict(shards=4), thorough=dict(shards=8)),
+         dict(name='rapid', engine='E5', pkg='iters', test='TestC14',
+              quick=dict(cases=150000, shards=4), thorough=dict(cases=1500000, shards=16, timeout=2400)),
+     ],
+     manifest=dict(
+         engine='E5', design_ref='4/C14',
+         technique='property-based testing (rapid): generated combinator expression trees vs a list interpreter; exhaustive enumeration of all trees of depth <= 3 over a small alphabet',
+         level_text=('Random expression trees to depth 6 with generated flat-map bodies, drained by the documented loop and by ForEach with a failing '
+                     'callback at every/drawn position, compared with obviously-correct list code; all trees to depth 3 over a small alphabet are enumerated. '
+                     'The iterators are small stateful objects whose bugs show only under nesting (Plus inside Join inside TakeWhile...), which is exactly what a tree generator reaches.'),
+         level_note='trusts the list interpreter (harness/iters/ast.go evalS); iterators are used once, as the documented loop does'))
+
+prop('C15',
+     level='exploration',
+     rule=('generated: expression trees of depth 2..6 mixing pair.From, TakeWhile, DropWhile, Filter, Map, Plus, Join, FromSeq with the plain-seq '
+           'combinators through ToSeq/FromSeq; leaves carry keys in 1000..1020 and values in 0..20 so a swapped or stale key is visible; predicates, '
+           'mappings and join bodies depend asymmetrically on (key, value) (e.g. k-2v mod m); oracle: list-of-pairs interpreter (evalP) vs the '
+           '(Key(),Value()) pairs collected by the documented loop and by pair.ForEach with a failing callback; '
+           'non-trivial = depth >= 3, expected length >= 1, >= 2 different combinators; distinct = different canonical tree+fail position'),
+     assumptions=['key and value type int only; user functions are pure and total'],
+     parts=[
+         dict(name='enum', engine='E5', pkg='iters', test='TestC15Enum', kind='plain', quick=dict(shards=4), thorough=dict(shards=8)),
+         dict(name='rapid', engine='E5', pkg='iters', test='TestC15',
+              quick=dict(cases=150000, shards=4), thorough=dict(cases=1500000, shards=16, timeout=2400)),
+     ],
+     manifest=dict(
+         engine='E5', design_ref='4/C15',
+         technique='property-based testing (rapid): generated mixed pair/seq expression trees vs a list-of-pairs interpreter; exhaustive enumeration of small trees',
+         level_text=('As C14 for key-value iterators, with asymmetric functions of (key, value) so that swapped arguments, a stale Key() after Plus/Join '
+                     'switches, or a Map that touches keys change the collected pairs.'),
+         level_note='trusts the list interpreter (harness/iters/ast.go evalP/evalS)'))
+
 prop('C17',
      level='exploration',
      rule=('generated: law kind (eq/ord on int and string, ContraMap over int and string projections, From wrappers over arbitrary '
